@@ -384,7 +384,9 @@ pub(super) fn derive_schema(input: TokenStream) -> syn::Result<TokenStream> {
                         #schema_with()
                     }
                 } else {
-                    schema_of_fields(v.fields, &container_attrs)?
+                    /* `rename_all` of an enum renames its variants; their fields are
+                       renamed by `rename_all_fields`, applied above */
+                    schema_of_fields(v.fields, &ContainerAttributes::default())?
                 };
 
                 schema = match (
